@@ -47,6 +47,7 @@ type c12UDPCase struct {
 	CloseAs    string `json:"local_close_error"` // eof | closed
 	EndEarly   bool   `json:"end_fed_before_start"`
 	PatternKey uint64 `json:"pattern_key"`
+	Empties    int    `json:"zero_length_tunnel_reads"`
 }
 
 var c12UDPSizes = []int{1, 2, 3, 255, 256, 1400, 65507, 65535}
@@ -219,7 +220,11 @@ func c12RunUDP(run *vk.Run, cs c12UDPCase, budget *c12Budget) {
 	}
 	sigCut := c12SigCut(cs.CutClass)
 
-	tun.FeedChunks(stream[:cs.Cut], chunks)
+	if cs.Empties > 0 {
+		tun.FeedChunksWithEmpties(stream[:cs.Cut], chunks, cs.Empties, rand.New(rand.NewSource(cs.ChunkSeed^0x5eed)))
+	} else {
+		tun.FeedChunks(stream[:cs.Cut], chunks)
+	}
 	waitOut := ""
 	switch cs.LocalMode {
 	case "idle":
@@ -369,6 +374,9 @@ func c12RunUDP(run *vk.Run, cs c12UDPCase, budget *c12Budget) {
 		}
 	}
 	run.Eval(1)
+	if tun.emptyReads.Load() >= 100 {
+		run.Count("cases_with_ge100_zero_length_tunnel_reads", 1)
+	}
 	run.Count("cut_"+cs.CutClass+"_"+cs.End, 1)
 	run.Count("local_"+cs.LocalMode, 1)
 	run.Distinct(fmt.Sprintf("seq%d|%s|%s|%s|%s", cs.Seq, cs.CutFine, cs.End, cs.Chunking, cs.LocalMode))
@@ -542,6 +550,9 @@ func TestVerifC12UDPLong(t *testing.T) {
 				case "rand-big":
 					cs.ChunkMax = 70000
 				}
+				if len(cases)%3 == 0 {
+					cs.Empties = []int{100, 101, 150, 400}[r.Intn(4)]
+				}
 				c12Localize(r, &cs, 40, c12UDPSizes)
 				cases = append(cases, cs)
 			}
@@ -563,6 +574,7 @@ func TestVerifC12UDPLong(t *testing.T) {
 	c12UDPLeak(run, before)
 	run.Floor("datagrams_delivered_checked", 1000)
 	run.Floor("datagrams_forwarded_checked", 300)
+	run.Floor("cases_with_ge100_zero_length_tunnel_reads", 40)
 	run.Floor("cut_prefix_eof", 3)
 	run.Floor("cut_prefix_err", 3)
 	run.Floor("cut_body_eof", 3)
